@@ -139,11 +139,11 @@ func (pConn *PFCPConn) handleSessionEstablishmentRequest(msg message.Message) (m
 		addQERs = append(addQERs, q)
 	}
 
-	session.MarkSessionQer(session.qers)
+	session.MarkSessionQer(addQERs)
 	// FIXME: since PacketForwardingRules doesn't store pointers,
 	//  we must also mark session QERs in addQERs.
 	//  We need a kind of refactoring to clean it up.
-	session.MarkSessionQer(addQERs)
+	session.syncQosLevel(addQERs)
 
 	// session.PacketForwardingRules stores all PFCP rules that has been installed so far,
 	// while 'updated' stores only the PFCP rules that have been provided in this particular message.
@@ -339,11 +339,12 @@ func (pConn *PFCPConn) handleSessionModificationRequest(msg message.Message) (me
 		addQERs = append(addQERs, q)
 	}
 
-	session.MarkSessionQer(session.qers)
+	// only the QERs created by this message may become the session QER
+	session.MarkSessionQer(addQERs[:len(smreq.CreateQER)])
 	// FIXME: since PacketForwardingRules doesn't store pointers,
 	//  we must also mark session QERs in addQERs.
 	//  We need a kind of refactoring to clean it up.
-	session.MarkSessionQer(addQERs)
+	session.syncQosLevel(addQERs)
 
 	updated := PacketForwardingRules{
 		pdrs: addPDRs,
